@@ -252,6 +252,7 @@ impl C05 {
                 return Err(f);
             }
         };
+        crate::engine::trace(|| format!("rendered ({} hunks): {:?}", nh, String::from_utf8_lossy(&rendered.r)));
         out.absorb_hits();
         if std::str::from_utf8(&rendered.r).is_err() {
             out.faults[F_INVALID_UTF8] += 1;
@@ -283,6 +284,7 @@ impl C05 {
                 } else {
                     &rendered.r[..]
                 };
+                crate::engine::trace(|| format!("sink {:?} per_hunk={}: write calls={} short_writes={} EINTR={} hard_fired={} ok={} accepted {} of {} bytes", sched, per_hunk, run.calls, run.short_writes, run.interrupts, run.hard_fired, run.result_ok, run.accepted.len(), expect.len()));
                 if sched.hard != 0 {
                     // hard faults are reach probes only: C05 says nothing about
                     // error returns
